@@ -74,7 +74,7 @@ func verifC07IntScope() rel.Scope {
 	return rel.EmptyScope.With("x", rel.NewNumber(float64(x))).With("y", rel.NewNumber(1)).With("z", rel.NewNumber(2))
 }
 
-// verif:bound VerifC07Programs 30 programs (reductions, orderby/rank, calls, set operators, nest, joins, tuple maps, dict ops, nested traversals) over collections of 9..11 members, x in [-2,2] (symbolic), y = 1, z = 2; second evaluation with at most 1 (quick) / 2 (thorough) enumerations out of insertion order (any permutation of up to 3 members, any transposition of more)
+// verif:bound VerifC07Programs 33 programs (reductions, orderby/rank over numbers and over strings of mixed offsets, calls, set operators, nest, joins, tuple maps, dict ops, nested traversals) over collections of 9..11 members, x in [-2,2] (symbolic), y = 1, z = 2; second evaluation with at most 1 (quick) / 2 (thorough) enumerations out of insertion order (any permutation of up to 3 members, any transposition of more)
 // verif:cover VerifC07Programs value deviated
 func VerifC07Programs() {
 	src := verifC07Expand.Replace(verifC07Programs[verifChoice(len(verifC07Programs))])
@@ -157,7 +157,7 @@ func VerifC07Floats() {
 	}
 }
 
-// verif:bound VerifC07Printed the 30 programs with x in {0,1}, y = 1, z = 2 (concrete: numbers are printed): printed form (rel.Repr and String) of the result identical under reordered enumeration (the printing code itself runs in order-free mode)
+// verif:bound VerifC07Printed the 33 programs with x in {0,1}, y = 1, z = 2 (concrete: numbers are printed): printed form (rel.Repr and String) of the result identical under reordered enumeration (the printing code itself runs in order-free mode)
 // verif:cover VerifC07Printed printed
 func VerifC07Printed() {
 	src := verifC07Expand.Replace(verifC07Programs[verifChoice(len(verifC07Programs))])
